@@ -15,6 +15,7 @@ typedef struct {
   uint32_t min_ttl;       /* over answer RRs (data) */
   uint32_t soa_ttl, soa_min;
   uint32_t rec_ttl;       /* TTL of the data records (uniform) */
+  uint32_t ans_soa_ttl;   /* TTL of the authority SOA carried beside a positive answer (0 none) */
   char     qname[300];    /* lowercase, no trailing dot */
   uint16_t qtype, qclass;
   int      rd, cd, opcode;
@@ -51,6 +52,7 @@ static void ck_note_packet(uint32_t serial, const sdns_query_t *q, const srv_pla
       c->nanswers = pl->nrec + pl->cname_chain;
       c->rec_ttl  = pl->ttl;
       c->min_ttl  = pl->ttl;
+      c->ans_soa_ttl = (pl->action == SA_TC) ? 0 : sim_answer_auth_soa_ttl;
       if (pl->cname_chain > 0 && pl->ttl > 3) {
         /* CNAME k carries ttl - (k % 3) */
         uint32_t m = pl->ttl;
@@ -192,6 +194,17 @@ static void mon_cache_tok_done(app_tok_t *t)
     if (c->epoch != ck_epoch) {
       vh_violation("cache:replay-across-reconfig", "request '%s' got a response cached before a server-list change / reinit", t->name);
     }
+    if (c->nanswers > 0 && t->ser_auth[i] && c->ans_soa_ttl > 0) {
+      /* the authority SOA riding along with a positive answer does not bound the entry's lifetime, so it can be
+       * older than its own TTL: it then shows 0, never a wrapped value */
+      uint32_t expect = c->ans_soa_ttl > (uint32_t)age ? c->ans_soa_ttl - (uint32_t)age : 0;
+      MON_EVAL("cache_ttl_decrement_authority");
+      if (t->ttls[i] != expect) {
+        vh_violation("cache:ttl-not-decremented:authority", "request '%s' (%s): cached authority SOA with original TTL %u, cached %lld s ago, delivered TTL %u (expected %u)",
+                     t->name, rk_names[t->kind], c->ans_soa_ttl, (long long)age, t->ttls[i], expect);
+      }
+      continue;
+    }
     /* TTL visible to the application = original - whole seconds cached */
     if (c->nanswers > 0 && t->kind != RK_GETHOSTBYNAME && t->kind != RK_GETHOSTBYADDR && t->kind != RK_GETNAMEINFO) {
       uint32_t expect = c->rec_ttl > (uint32_t)age ? c->rec_ttl - (uint32_t)age : 0;
@@ -226,6 +239,10 @@ static void gen_cache(vh_rng_t *rng)
   app_cfg.srv_cfg[0]     = 0;
   app_cfg.srv_cfg[1]     = 1;
   app_cfg.qcache_max_ttl = maxttl[vh_below(rng, 6)];
+  if (vh_chance(rng, 1, 3)) {
+    static const uint32_t st[] = { 1, 1, 2, 3, 5, 10, 60 };
+    sim_answer_auth_soa_ttl    = st[vh_below(rng, 7)];
+  }
   if (vh_chance(rng, 1, 2)) {
     app_cfg.qcache_max_ttl = 3600;
   }
@@ -294,6 +311,14 @@ static void gen_cache(vh_rng_t *rng)
     }
     tk->qtype    = r < 50 ? 1 : r < 75 ? 28 : 16;
     tk->qclass   = 1;
+    if ((tk->kind == RK_SEND_DNSREC || tk->kind == RK_QUERY_DNSREC || tk->kind == RK_QUERY || tk->kind == RK_SEND) && vh_chance(rng, 1, 6)) {
+      /* types and classes the library has no name for are still different types and classes */
+      static const int ut[] = { 65280, 65281, 65282, 4660, 4661 };
+      static const int uc[] = { 1, 1, 3, 4, 254, 65280, 65281 };
+      tk->qtype  = ut[vh_below(rng, 5)];
+      tk->qclass = uc[vh_below(rng, 7)];
+      sim_note("cache_request_with_unnamed_type_or_class");
+    }
     tk->family   = vh_chance(rng, 1, 2) ? AF_INET : AF_INET6;
     tk->ai_flags = ARES_AI_NOSORT;
     tk->action   = RA_NONE;
